@@ -16,6 +16,13 @@ ASSUMPTIONS = [
     'from that charset. The Joliet tree (reader option !rockridge or an image written without Rock Ridge) is compared on name, type, '
     'size, mtime and body for names Joliet holds unchanged (<= 64, with joliet=long <= 103 UCS-2 units per component, none of * / : ; ? \\)',
     'an ACL names each (tag, id) at most once; ACL / xattr / option cases are not rewritten into a different format',
+    'hard links are a property of the whole archive (LA.Drive.CodecOracle.linkAdjust): tar returns the name stored in the link entry, the '
+    'cpio family the first member seen with the same (dev, ino) - the reader model replayed on the written entries -, xar and iso9660 '
+    'the named target and a link count they compute themselves (target + links written after it; iso9660 may name any member of the group '
+    'as the file); a link written before its target and links handed to formats without links are recorded findings',
+    'file flags are compared as text for pax and mtree (mtree: flags=none is "no flags"); flag names are those this platform parses '
+    '(the mtree writer compares bits); for mtree the expectation is restricted to the keywords the options leave switched on '
+    '(mtreeKeys), `dironly` stores directories only; names are a function of the ids in the option trees (as on a real system)',
     'write filters are not modelled: with a filter the byte-level model only monitors and the round trip is judged by the '
     'predicate engine; 7zip is not driven through filters (its reader needs a seekable source)',
     'read block size is not varied here (C05); shar and raw have no reader',
@@ -46,7 +53,10 @@ MANIFEST = {
             'generator dimensions: archives of 9..33 entries with the optional times present at varying positions; sparse maps whose '
             'text form is 510..514 / 1022..1026 bytes long; access, default, access+default and NFSv4 ACLs and extended attributes '
             'on files and directories; Unicode names whose UTF-16 units have a 0x2F / 0x5C / 0x00 byte, also read through the Joliet '
-            'tree and under hdrcharset conversions.',
+            'tree and under hdrcharset conversions; files with 3..5 names (hard-link groups, links interleaved with other entries, '
+            'two groups per archive) in every format that stores links; file flags; the mtree writer under every option '
+            '(use-set, indent, dironly, all / !all, each keyword on and off, every checksum) on trees of 2..5 directories in which the '
+            'most common uid, gid, mode, flags and type of the children changes from each directory to the next.',
     'note': 'partial: proofs for ustar, cpio odc/newc and ar (headers + whole streams) and the pax record layer; the pax '
             "writer's attribute selection, time text form and trailing ustar header, the SVR4 ar filename table, and all other "
             'formats are checked differentially against the spec only.',
